@@ -148,10 +148,22 @@ func Generate(seed uint64, prop, tier string) *Plan {
 		c.Host = "127.0.0.1"
 	case "tcp6":
 		c.Host = "[::1]"
+		if prop == "C17" || r.Chance(1, 2) {
+			c.Host = "[fe80::1%eth0]"
+		}
 	case "unix":
 		c.Host = "/tmp/verif-sim.sock"
 	}
+	if prop == "C17" && r.Chance(1, 2) {
+		c.Network, c.Host = "tcp6", "[fe80::1%eth0]"
+	}
 	c.Loops = r.Pick(1, 1, 2, 3, 4)
+	if prop == "C15" {
+		c.Loops = r.Pick(1, 2, 3, 4, 5, 7, 8)
+		if tier == "thorough" && r.Chance(1, 20) {
+			c.Loops = r.Pick(16, 64, 256)
+		}
+	}
 	switch r.Intn(4) {
 	case 0:
 		c.ET = true
@@ -161,6 +173,10 @@ func Generate(seed uint64, prop, tier string) *Plan {
 	}
 	c.ReusePort = r.Chance(1, 3)
 	c.LB = r.Intn(3)
+	if prop == "C15" {
+		c.ReusePort = false
+		c.Serial = c.LB == 1 || r.Chance(1, 3)
+	}
 	c.ReadBuf = r.Pick(0, 1024, 1024, 2048, 4096, 65536)
 	c.WriteBuf = r.Pick(0, 1024, 1024, 2048, 4096, 65536)
 	rb := c.ReadBuf
@@ -193,6 +209,11 @@ func Generate(seed uint64, prop, tier string) *Plan {
 		c.OffSites = []string{"atomic:load"}
 	}
 
+	if c.Serial && c.LB == 1 {
+		// exact least-connections oracle: the balancer's scan of the per-loop
+		// counters must be atomic with the accept4 that precedes it
+		c.OffSites = []string{"atomic:"}
+	}
 	inHeavy := prop == "C01" || r.Chance(1, 3)
 	outHeavy := prop == "C02" || r.Chance(1, 3)
 	closeHeavy := prop == "C04" || prop == "C07" || r.Chance(1, 4)
@@ -202,8 +223,21 @@ func Generate(seed uint64, prop, tier string) *Plan {
 	if r.Chance(1, 6) {
 		nconn = r.Range(4, 10)
 	}
+	if prop == "C15" || prop == "C14" {
+		nconn = r.Range(3, 12)
+		if c.Loops > 8 {
+			nconn = min(3*c.Loops, 40)
+		}
+	}
 	for i := 0; i < nconn; i++ {
 		cp := ConnPlan{Start: r.Pick(0, 0, 0, 5, 30, 100)}
+		if i > 0 && (prop == "C15" && r.Chance(1, 3) || r.Chance(1, 12)) {
+			cp.AddrOf = 1 + r.Intn(i)
+		}
+		if (prop == "C15" || prop == "C14") && r.Chance(1, 2) {
+			// short-lived connections: the vector of per-loop counts keeps changing
+			cp.Peer = append(cp.Peer, PeerOp{K: "pause", N: r.Range(1, 60)}, PeerOp{K: "close"})
+		}
 		if r.Chance(1, 3) {
 			cp.OpenReply = r.Pick(1, 16, 1000, wb, 3*wb)
 		}
@@ -215,6 +249,9 @@ func Generate(seed uint64, prop, tier string) *Plan {
 		}
 		// peer script
 		nops := r.Range(1, 6)
+		if len(cp.Peer) > 0 {
+			nops = 0
+		}
 		for j := 0; j < nops; j++ {
 			var op PeerOp
 			switch x := r.Intn(12); {
@@ -238,6 +275,7 @@ func Generate(seed uint64, prop, tier string) *Plan {
 			}
 		}
 		switch x := r.Intn(10); {
+		case nops == 0:
 		case x < 3 || closeHeavy && x < 6:
 			cp.Peer = append(cp.Peer, PeerOp{K: "close"})
 		case x == 3:
